@@ -1,9 +1,128 @@
 import BronVerif.Drive.Common
-/-! Driver handlers for C04. -/
-namespace BronVerif.Drive.C04
-open BronVerif BronVerif.Drive
+import BronVerif.Model.CheckGraph
+import BronVerif.Model.CheckGraphs
+/-! Driver handlers for C04 (tamper matrix against the check graphs).
 
-def handle (op : String) (_args : List String) (_rhs : String) : Verdict :=
-  .unsupported ("C04 op " ++ op)
+Lines (see harness/c04.go):
+
+    C04 honest <proto> <cfg> <ids> => <id=class;…>|agg=<class>|out=<valid|none|invalid:…>
+    C04 tamper <proto> <cfg> <round> <sender> <rcpt|b> <path> <op> <changed> <ids> => (same rhs)
+
+Verdict of a tampering, from the check graph of `<proto>` (`Model/CheckGraphs.lean`):
+
+* an honest party (≠ sender) or the aggregator that panics / hangs            ⇒ BAD `panic` / `hang`
+  (every BAD carries `site=<proto>/r<round>/<b|u>/<normalised path>/<op>`, the stable identifier of a finding)
+* … that blames anybody but the sender                                        ⇒ BAD `blamed-honest`
+* a released output that the independent verifiers reject                      ⇒ BAD `bad-output-released`
+* site classified **bound** (or structural: container shape, whole message) and the decoded value
+  changed (or the message is missing), but no honest receiver / aggregator rejects — for a unicast:
+  the recipient does not reject                                                ⇒ BAD `accepted-bound-leaf`
+  when every predicate binding the leaf is tagged, the first rejecting party must blame exactly the
+  sender (otherwise DIFF: the model's tag expectation is not met);
+* value-preserving re-encoding: may be accepted;
+* **unbound** leaf: any outcome, but if everybody accepts the outputs must be valid;
+* a site the graph does not know                                               ⇒ UNSUPPORTED.
+-/
+namespace BronVerif.Drive.C04
+open BronVerif BronVerif.Drive BronVerif.CheckGraph
+
+structure Outcome where
+  parties : List (Nat × String)
+  agg : String
+  out : String
+
+def parseOutcome (rhs : String) : Option Outcome :=
+  match rhs.splitOn "|" with
+  | [st, ag, ou] =>
+    if !(ag.startsWith "agg=") || !(ou.startsWith "out=") then none else
+    let ps := (st.splitOn ";").mapM fun t =>
+      match t.splitOn "=" with
+      | [i, c] => (i.toNat?).map fun n => (n, c)
+      | _ => none
+    ps.map fun p => { parties := p, agg := (ag.drop 4).toString, out := (ou.drop 4).toString }
+  | _ => none
+
+def blamedOf (cls : String) : List Nat :=
+  if cls.startsWith "abort-blame:" then ((cls.drop 12).toString.splitOn ",").filterMap String.toNat? else []
+
+def isOk (cls : String) : Bool := cls == "ok"
+
+/-- sanity of one honest class: no panic, no hang, blames only the sender -/
+def classBad (who : String) (sender : Nat) (cls : String) : Option Verdict :=
+  let cls := if cls.startsWith "alt-" then (cls.drop 4).toString else cls
+  if cls.startsWith "panic" then some (.bad "panic" (who ++ " " ++ cls))
+  else if cls == "hang" then some (.bad "hang" who)
+  else if (blamedOf cls).any (· != sender) then some (.bad "blamed-honest" (who ++ " " ++ cls))
+  else none
+
+def firstSome {α} : List (Option α) → Option α
+  | [] => none
+  | some a :: _ => some a
+  | none :: r => firstSome r
+
+def handleTamper (g : Graph) (round sender : Nat) (rcpt path op changed : String) (o : Outcome) : Verdict :=
+  let honest := o.parties.filter (·.1 != sender)
+  let aggPresent := o.agg != "-"
+  let kind := if rcpt == "b" then Kind.bcast else Kind.ucast
+  -- stable identifier of the tampered site (the same token is in the harness's !VIOLATION lines)
+  let site := "site=" ++ g.proto ++ "/r" ++ toString round ++ "/" ++ (if rcpt == "b" then "b" else "u") ++ "/" ++
+    normPath path ++ "/" ++ op
+  let sane := firstSome ((honest.map fun (i, c) => classBad ("party-" ++ toString i ++ " " ++ site) sender c) ++
+    [if aggPresent then classBad ("aggregator " ++ site) sender o.agg else none])
+  match sane with
+  | some v => v
+  | none =>
+  if o.out.startsWith "invalid" then .bad "bad-output-released" (o.out ++ " " ++ site) else
+  let aggRejects := aggPresent && o.agg != "ok" && o.agg != "none"
+  let rejecting := honest.filter fun (_, c) => !isOk c
+  -- a deviator that aborts itself ends the run before anybody accepted anything (the round-by-round
+  -- runner stops there; on a network the others would wait for its next message): no acceptance
+  let senderStopped := (o.parties.any fun (i, c) => i == sender && !isOk c) && o.out == "none"
+  let rejected := !rejecting.isEmpty || aggRejects || senderStopped
+  let rcptRejected : Bool :=
+    match rcpt.toNat? with
+    | some r => (honest.any fun (i, c) => i == r && !isOk c) || (!(honest.any fun (i, _) => i == r)) || senderStopped
+    | none => rejected
+  let deviation := changed != "0"
+  let missing := changed == "u" || changed == "d"
+  let accepted := !rejected
+  let outOk : Verdict :=
+    if accepted && o.out != "valid" then .bad "bad-output-released" ("accepted but out=" ++ o.out ++ " " ++ site) else .ok
+  let mustReject (what : String) (tagged toAggregator : Bool) : Verdict :=
+    if !deviation then outOk
+    -- a missing partial signature: the aggregator may still succeed with the remaining qualified set
+    else if toAggregator && missing then outOk
+    else if !rejected then .bad "accepted-bound-leaf" (what ++ " accepted by every honest party " ++ site)
+    else if !rcptRejected then .bad "accepted-bound-leaf" (what ++ " not rejected by its recipient " ++ rcpt ++ " " ++ site)
+    else if tagged && !senderStopped then
+      -- the first rejecting party blames exactly the sender
+      let want := "abort-blame:" ++ toString sender
+      match rejecting.head? with
+      | some (_, c) => if c == want then .ok else .diff (want ++ " (tagged predicate) observed=" ++ c)
+      | none => if o.agg == want then .ok else .diff (want ++ " (tagged aggregator check) observed=" ++ o.agg)
+    else .ok
+  -- messages of the round after the last receiver predicate go to the aggregator
+  let toAgg := g.preds.any fun p => p.who == .aggregator && p.binds.any fun l => l.round == round && l.kind == kind
+  match g.classify round kind path with
+  | .unknown => .unsupported ("site not in the check graph of " ++ g.proto ++ ": r" ++ toString round ++ " " ++ rcpt ++ " " ++ path)
+  | .structural => mustReject ("structural site " ++ path) false toAgg
+  | .boundLeaf l ps => mustReject ("bound leaf " ++ l.path ++ " (" ++ ",".intercalate (ps.map (·.name)) ++ ")") (ps.all (·.tagged)) toAgg
+  | .unboundLeaf _ => outOk
+
+def handle (op : String) (args : List String) (rhs : String) : Verdict :=
+  match op, args with
+  | "honest", [proto, _cfg, _ids] =>
+    match graphOf proto, parseOutcome rhs with
+    | none, _ => .unsupported ("no check graph for " ++ proto)
+    | _, none => .unsupported "rhs"
+    | some _, some o =>
+      if o.parties.all (fun (_, c) => isOk c) && (o.agg == "-" || o.agg == "ok") && o.out == "valid" then .ok
+      else .bad "honest-run-failed" rhs
+  | "tamper", [proto, _cfg, round, sender, rcpt, path, op, changed, _ids] =>
+    match graphOf proto, round.toNat?, sender.toNat?, parseOutcome rhs with
+    | some g, some r, some s, some o => handleTamper g r s rcpt path op changed o
+    | none, _, _, _ => .unsupported ("no check graph for " ++ proto)
+    | _, _, _, _ => .unsupported "args"
+  | _, _ => .unsupported ("C04 op " ++ op)
 
 end BronVerif.Drive.C04
